@@ -107,6 +107,7 @@ func dedupDriver(a *Args) {
 	}
 
 	var agent *hx.Proc
+	cfg := hx.AgentConfig{} // the configuration the next agent is started with
 	idsUsed := 0
 	unserved := 0
 	startAgent := func() bool {
@@ -114,7 +115,7 @@ func dedupDriver(a *Args) {
 			agent.Kill()
 		}
 		var err error
-		agent, err = hx.StartAgent(hx.Bin("agent"), md, fp.URL(), bln.Addr().String(), "agent", nil, nil)
+		agent, err = hx.StartAgentCfg(hx.Bin("agent"), md, fp.URL(), bln.Addr().String(), "agent", cfg, nil, nil)
 		if err != nil {
 			res.Bad("cannot start agent: %v", err)
 			return false
@@ -260,5 +261,46 @@ func dedupDriver(a *Args) {
 		}
 		play(fmt.Sprintf("dedup-window-%d", total), fmt.Sprintf("dedup-window-%d", total), hist, 10000)
 		res.Case(fmt.Sprintf("window:%d", total), map[string]interface{}{"distinct_ids": total, "relisted": "first and last"})
+	}
+	// de-duplication does not depend on the agent's other settings (spec/AgentConfig.tla, Neutral.C04): under every
+	// configuration chosen for this run a fresh agent plays a few of the histories and a window of 60 IDs whose
+	// first and last are listed again
+	cfgs := hx.AgentConfigs()
+	res.Extra["agent_configurations"] = len(cfgs)
+	for ci, c := range cfgs {
+		if c.Name() == "default" {
+			continue
+		}
+		cfg = c
+		if agent != nil {
+			agent.Kill()
+			agent = nil
+		}
+		for hi, h := range cases.Histories {
+			if hi%7 != ci%7 || len(h) == 0 {
+				continue
+			}
+			hist := make([][]string, len(h))
+			distinct := map[string]bool{}
+			for i, batch := range h {
+				for _, x := range batch {
+					hist[i] = append(hist[i], fmt.Sprintf("c%d-h%d-%s", ci, hi, x))
+					distinct[x] = true
+				}
+			}
+			play(fmt.Sprintf("dedup-c%d-h%d", ci, hi), "dedup-history@"+c.Name(), hist, len(distinct))
+		}
+		var hist [][]string
+		var batch []string
+		for k := 0; k < 60; k++ {
+			batch = append(batch, fmt.Sprintf("c%d-w-%d", ci, k))
+			if len(batch) == 20 {
+				hist = append(hist, batch)
+				batch = nil
+			}
+		}
+		hist = append(hist, []string{fmt.Sprintf("c%d-w-%d", ci, 0)}, []string{fmt.Sprintf("c%d-w-%d", ci, 59)})
+		play(fmt.Sprintf("dedup-c%d-window", ci), "dedup-window-60@"+c.Name(), hist, 60)
+		res.Case("config:"+c.Name(), map[string]interface{}{"agent_configuration": c.Name()})
 	}
 }
